@@ -705,6 +705,6 @@ def coq_obs(obs):
 
 COQ_HEADER = """From Coq Require Import List String ZArith NArith Bool. Import ListNotations.
 From FB.Base Require Import PyVal Fs. From FB.Spec Require Import Prog.
-From FB.Model Require Import Types Monad Builder Persist Build Run Dsl. From FB.Spec Require Import Ref Oracle.
+From FB.Model Require Import Types Monad Builder Persist Build Run Dsl. From FB.Spec Require Import Ref Oracle. From FB.Model Require Import Core CoreOracle.
 Open Scope string_scope. Open Scope list_scope.
 """
